@@ -38,14 +38,23 @@ def load_known(prop):
     return [e for e in data["findings"] if e["property"] == prop or prop in e.get("shared_with", [])]
 
 
+DEADLINE = [None]     # wall-clock instant after which no further instance is started (thorough tier; see main)
+
+
 def run_worker(modname, inst, excluded, witness):
-    cmd = [PY, os.path.join(HERE, "worker.py"), modname, inst["fn"], str(inst["timeout"]),
+    t0 = time.time()
+    timeout = inst["timeout"]
+    if DEADLINE[0] is not None and not witness:
+        if t0 > DEADLINE[0]:
+            return {"fn": inst["fn"], "params": inst["params"], "witness": witness, "messages": [], "paths": 0, "z3_checks": 0,
+                    "z3_seconds": 0.0, "skipped": True, "name": inst["name"], "elapsed": 0.0}
+        timeout = int(min(timeout, max(60, DEADLINE[0] - t0 + 90)))
+    cmd = [PY, os.path.join(HERE, "worker.py"), modname, inst["fn"], str(timeout),
            json.dumps(inst["params"]), ",".join(sorted(excluded)), "1" if witness else "0"]
     env = dict(os.environ)
     env["PYTHONHASHSEED"] = "0"
     env.setdefault("TERM", "xterm-256color")
-    t0 = time.time()
-    hard = int(inst["timeout"] * 1.4) + 60
+    hard = int(timeout * 1.4) + 60
     try:
         cp = subprocess.run(cmd, capture_output=True, text=True, timeout=hard, env=env, cwd=ROOT)
         out, err, rc = cp.stdout, cp.stderr, cp.returncode
@@ -68,6 +77,8 @@ def run_worker(modname, inst, excluded, witness):
 
 def classify(rec):
     """-> one of confirmed / refuted / unknown / pre_unsat / crash, plus the message"""
+    if rec.get("skipped"):
+        return "skipped", None
     if rec.get("crash"):
         return "crash", None
     states = [m["state"] for m in rec["messages"]]
@@ -96,11 +107,25 @@ def safe_concrete(mod, fn, params, args):
     def _alarm(signum, frame):
         raise _Hang()
 
+    from chx import statereset
+    statereset.reset()       # every replay starts from the import-time module state of the library
     old = signal.signal(signal.SIGALRM, _alarm)
     signal.alarm(120)
     try:
         return mod.concrete(fn, params, args)
-    except _Hang:
+    except BaseException as ex:      # noqa
+        if type(ex).__name__ == "ModelGap":
+            return {"ok": None, "note": "environment model gap: %s" % (ex,), "harness_error": True}
+        if not isinstance(ex, (_Hang, Exception)):
+            raise
+        if isinstance(ex, Exception):
+            tb = traceback.extract_tb(ex.__traceback__)
+            inner = tb[-1].filename if tb else ""
+            where = "%s:%s" % (os.path.basename(inner), tb[-1].lineno if tb else 0)
+            if "/curtsies/" in inner and "/verif/" not in inner:
+                return {"ok": False, "observed": "raised %r at %s" % (ex, where), "expected": "no exception",
+                        "call": "%s%r" % (fn, tuple(args))}
+            return {"ok": None, "note": "harness exception %r at %s" % (ex, where), "harness_error": True}
         return {"ok": False, "observed": "the real code did not return within 120 s on this input", "expected": "termination",
                 "call": "%s%r" % (fn, tuple(args))}
     except Exception as ex:
@@ -149,6 +174,14 @@ def main():
     mod = importlib.import_module("chx.harness." + modname)
     import curtsies
     repo_file = os.path.dirname(curtsies.__file__)
+    import pkgutil
+    for m in pkgutil.iter_modules(curtsies.__path__):
+        try:
+            importlib.import_module("curtsies." + m.name)
+        except Exception:      # noqa  (an optional dependency of one module missing: nothing to snapshot there)
+            pass
+    from chx import statereset
+    statereset.snapshot()
 
     if a.replay:
         with open(a.replay) as fh:
@@ -209,7 +242,9 @@ def main():
     extra_n = 0
     if hasattr(mod, "extra_concrete_cases"):
         bad = 0
-        for (efn, eparams, eargs) in mod.extra_concrete_cases():
+        import inspect
+        ecases = mod.extra_concrete_cases(tier) if inspect.signature(mod.extra_concrete_cases).parameters else mod.extra_concrete_cases()
+        for (efn, eparams, eargs) in ecases:
             with tracer:
                 res = safe_concrete(mod, efn, eparams, eargs)
             concrete_runs += 1
@@ -248,6 +283,17 @@ def main():
     jobs = [(dict(i, timeout=min(i["timeout"], 60)), True) for i in wit] + jobs
 
     jobs.sort(key=lambda j: -j[0].get("cost", 1))      # expensive instances first (better packing on the cores)
+    budget = float(os.environ.get("VERIF_BUDGET_S", "0") or 0) or (900.0 if tier == "thorough" else 0.0)
+    if tier == "thorough":
+        # thorough = the quick instances (same names) first, then the deeper ones in the seeded order, until the wall
+        # budget is used up: instances not started by then are recorded as skipped, never as confirmed
+        qnames = {i["name"] for i in mod.instances("quick", seed)}
+        first = [j for j in jobs if j[1] or j[0]["name"] in qnames]
+        rest = [j for j in jobs if not (j[1] or j[0]["name"] in qnames)]
+        random.Random(seed + 1).shuffle(rest)
+        jobs = first + rest
+    if budget:
+        DEADLINE[0] = t_start + budget
     results = []
     with cf.ThreadPoolExecutor(NCPU) as ex:
         futs = [ex.submit(run_worker, modname, i, excluded, w) for i, w in jobs]
@@ -255,7 +301,7 @@ def main():
             results.append(f.result())
 
     counts = {"confirmed": 0, "unknown": 0, "refuted_replayed": 0, "refuted_not_reproduced": 0,
-              "refuted_known_region": 0, "pre_unsat": 0, "crash": 0, "witness_ok": 0, "witness_bad": 0}
+              "refuted_known_region": 0, "pre_unsat": 0, "crash": 0, "witness_ok": 0, "witness_bad": 0, "skipped_budget": 0}
     paths = checks = 0
     z3s = 0.0
     nontrivial = 0
@@ -263,6 +309,9 @@ def main():
     nrep = 0
     for rec in sorted(results, key=lambda r: (r["witness"], r["name"])):
         kind, msg = classify(rec)
+        if kind == "skipped":
+            counts["skipped_budget"] += 1
+            continue
         paths += rec.get("paths", 0)
         checks += rec.get("z3_checks", 0)
         z3s += rec.get("z3_seconds", 0.0)
@@ -347,8 +396,8 @@ def main():
         inst_records.append(entry)
 
     wall = time.time() - t_start
-    n_inst = sum(1 for r in results if not r["witness"])
-    exhaustive = (n_inst > 0 and counts["confirmed"] == n_inst and not problems and not violations)
+    n_inst = sum(1 for r in results if not r["witness"] and not r.get("skipped"))
+    exhaustive = (n_inst > 0 and counts["confirmed"] == n_inst and not counts["skipped_budget"] and not problems and not violations)
     if not samples:
         samples = [{"note": "no reachability witness replayed in this run"}]
     ev = {
@@ -366,6 +415,8 @@ def main():
             "exhaustive": exhaustive,
             "explanation": "exhaustive=true means every instance ended 'Confirmed over all paths' inside the stated bounds",
             "instances_run": n_inst,
+            "instances_listed": sum(1 for r in results if not r["witness"]),
+            "wall_budget_s": budget or None,
             "verdicts": counts,
             "solver_seconds": round(z3s, 2),
             "functions_encoded": sorted(tracer.seen),
@@ -387,8 +438,8 @@ def main():
     with open(os.path.join(EVID, prop + ".json"), "w") as fh:
         json.dump(ev, fh, indent=1, default=str)
 
-    print("%s %s: instances=%d confirmed=%d unknown=%d refuted=%d known-region=%d witnesses ok=%d bad=%d paths=%d z3=%d (%.1fs) wall=%.1fs"
-          % (prop, tier, n_inst, counts["confirmed"], counts["unknown"], counts["refuted_replayed"],
+    print("%s %s: instances=%d confirmed=%d unknown=%d skipped(budget)=%d refuted=%d known-region=%d witnesses ok=%d bad=%d paths=%d z3=%d (%.1fs) wall=%.1fs"
+          % (prop, tier, n_inst, counts["confirmed"], counts["unknown"], counts["skipped_budget"], counts["refuted_replayed"],
              counts["refuted_known_region"], counts["witness_ok"], counts["witness_bad"], paths, checks, z3s, wall))
     for path, what in violations:
         print("VIOLATION property=%s replay=%s" % (prop, path))
